@@ -28,7 +28,7 @@ TRUSTED_BASE = [
 ]
 ASSUMPTIONS = [
     "rails are flows of the shape of the shipped library rails (check action + `if not $allowed` + refuse/exception + stop|abort; mask action assigning $user_message/$bot_message)",
-    "Colang 1.0 stops a turn after 100 new events (`Too many events.`): configurations are kept below the cap (<= 5 scripted rails)",
+    "Colang 1.0 stops a turn after 100 new events (`Too many events.`): configurations are kept below the cap (<= 4 scripted rails in total)",
     "rewriting is a Colang 1.0 notion (guardrails.co passes the text by value)",
 ]
 EXHAUSTIVE = {"quick": False, "thorough": True}
